@@ -27,6 +27,10 @@ type Ctx struct {
 	// DistinctByConstruction is added to the hash-set count: cases that are
 	// distinct because the enumeration is a bijection from indices (counted).
 	DistinctByConstruction int64
+	// noise: the unrelated library activity performed before the current case (-1 none), see noise.go
+	noise     int
+	mineCount int64
+	noiseRuns int64
 }
 
 type propImpl struct {
@@ -40,7 +44,26 @@ var registry = map[string]propImpl{}
 func (c *Ctx) Thorough() bool { return c.Tier == "thorough" }
 
 // Mine reports whether work item i belongs to this shard.
-func (c *Ctx) Mine(i int64) bool { return int(i%int64(c.NShards)) == c.Shard }
+func (c *Ctx) Mine(i int64) bool {
+	mine := int(i%int64(c.NShards)) == c.Shard
+	if mine {
+		c.caseBoundary()
+	}
+	return mine
+}
+
+// caseBoundary is called between cases (from Mine and Eval): every noisePeriod-th boundary performs one unrelated
+// library activity before the next case (see noise.go).
+func (c *Ctx) caseBoundary() {
+	if c.Res == nil || !noiseOn(c) {
+		return
+	}
+	c.mineCount++
+	if c.mineCount%noisePeriod == 0 {
+		c.noiseRuns++
+		runNoise(int(c.noiseRuns % noiseKinds))
+	}
+}
 
 // Expired reports whether the internal deadline has passed (the run then
 // reports exhaustive:false instead of being killed).
@@ -50,7 +73,12 @@ func (c *Ctx) Expired() bool { return time.Now().After(c.Deadline) }
 func (c *Ctx) Outcome(class string) { c.Res.Outcomes[class]++ }
 
 // Eval counts n evaluations.
-func (c *Ctx) Eval(n int64) { c.Res.Evaluations += n }
+func (c *Ctx) Eval(n int64) {
+	c.Res.Evaluations += n
+	if n == 1 {
+		c.caseBoundary()
+	}
+}
 
 // Distinct records the identity hash of a non-trivial case.
 func (c *Ctx) Distinct(h uint64) {
@@ -87,6 +115,16 @@ func (c *Ctx) Violation(key, detail string, replay interface{}) {
 	b, err := json.Marshal(replay)
 	if err != nil {
 		c.Fail("cannot marshal replay: %v", err)
+	}
+	if c.noiseRuns > 0 {
+		// the activities this process performed before the case, oldest first (they cycle, so at most one of each kind)
+		var hist []int
+		for k := c.noiseRuns - noiseKinds + 1; k <= c.noiseRuns; k++ {
+			if k >= 1 {
+				hist = append(hist, int(k%noiseKinds))
+			}
+		}
+		b, _ = json.Marshal(map[string]interface{}{"noise_history": hist, "case": json.RawMessage(b)})
 	}
 	c.Res.Violations = append(c.Res.Violations, proto.Violation{Key: key, Detail: detail, Replay: b})
 }
@@ -125,7 +163,7 @@ func writeResult(c *Ctx) {
 
 func main() {
 	debug.SetMaxStack(64 << 20)
-	c := &Ctx{distinct: map[uint64]struct{}{}, distinctCap: 3000000, violKeys: map[string]int{}}
+	c := &Ctx{distinct: map[uint64]struct{}{}, distinctCap: 3000000, violKeys: map[string]int{}, noise: -1}
 	var replay string
 	var budget int
 	flag.StringVar(&c.Prop, "prop", "", "")
@@ -165,9 +203,22 @@ func main() {
 			if err != nil {
 				c.Fail("%v", err)
 			}
+			var wrapped struct {
+				Noise []int           `json:"noise_history"`
+				Case  json.RawMessage `json:"case"`
+			}
+			if json.Unmarshal(b, &wrapped) == nil && len(wrapped.Noise) > 0 && len(wrapped.Case) > 0 {
+				for _, k := range wrapped.Noise {
+					runNoise(k)
+				}
+				b = wrapped.Case
+			}
 			impl.Replay(c, b)
 		} else {
 			impl.Run(c)
+			if c.noiseRuns > 0 {
+				c.Res.Extra["sum_cases_preceded_by_unrelated_library_activity"] = float64(c.noiseRuns)
+			}
 		}
 	}()
 	writeResult(c)
